@@ -4,6 +4,7 @@ import NxProofs.RefineSend
 import NxProofs.HandlePath
 import NxProofs.Liveness
 import NxProofs.Roles
+import NxProofs.Resend
 /-!
 # C01 — two L1 endpoints and the network between them, as one system
 
@@ -85,6 +86,7 @@ inductive SysOp where
   | bSend (now : Time) (data : Bytes) (s : Nat)       -- `b` sends data of its own (the other direction; any substream)
   | bPing (now : Time)                 -- `b`'s keep-alive timer fires
   | bAckIn (now : Time) (p : Packet)   -- `b` is handed an acknowledgement (not of SYN / CONNECT / DISCONNECT) of its own traffic
+  | fireResend (now : Time) (p : Packet) (k : Nat)  -- a retransmission timer of `a` that holds `p` (counter `k`) fires
   | ackIn (now : Time) (p : Packet)    -- `a.handle` is handed ANY acknowledgement (ACK or aggregate MULTI_ACK flag; true, stale,
                                        -- coalesced or forged) of a non-handshake packet
 
@@ -144,6 +146,7 @@ def Sys.step (env : Env) (sub : Nat) (s : Sys) : SysOp → Sys
       { s with b := (s.b.handle env now p).c, nrel := s.nrel + k }
   | .inject now p => { s with b := (s.b.handle env now p).c }
   | .ackIn now p => { s with a := (s.a.handle env now p).c }
+  | .fireResend now p k => { s with a := (s.a.fireOne env now (.resend p k)).c }
   | .aSendOther now data s' => { s with a := (s.a.send env now data s').c }
   | .aRecv now p => { s with a := (s.a.handle env now p).c }
   | .bSend now data s' => { s with b := (s.b.send env now data s').c }
@@ -172,6 +175,7 @@ def Sys.opOk (env : Env) (sub : Nat) (s : Sys) : SysOp → Bool
   | .deliverH _ j => decide (j < s.nrel + 32768 ∧ s.nrel < j + 32768) || decide (s.net.length ≤ j)
   | .inject _ p => decide (p.signature ≠ s.b.expectedSig env p)
   | .ackIn _ p => (hasAck p.flags || hasMultiAck p.flags) && decide (p.type ≠ TYPE_SYN) && decide (p.type ≠ TYPE_CONNECT)
+  | .fireResend _ p _ => decide (p ∈ resendsOf s.a)
   | .aSendOther _ _ s' => decide (s' ≠ sub)
   | .aRecv _ p => ordinaryB p
   | .bSend _ _ _ => true
@@ -626,6 +630,7 @@ def Sys.absOp (env : Env) (sub : Nat) (s : Sys) : SysOp → Option Op
     | some p => if s.b.accepts env now p then some (.arrive j) else none
   | .inject _ _ => none
   | .ackIn _ _ => none
+  | .fireResend _ _ _ => none
   | .aSendOther _ _ _ => none
   | .aRecv _ _ => none
   | .bSend _ _ _ => none
@@ -987,6 +992,12 @@ theorem cpl_step (env : Env) (hcomp : ∀ b, env.compress b = b) (hdec : ∀ b, 
       exact ⟨by rw [hf.ctr]; exact hc, sc, by rw [hf.ciph]; exact hsc, fun hon => hpos (by rw [← hf.con]; exact hon)⟩
     · rw [← h.acipher]; simp only [cipherOf, hf.ciph, hf.con]
 
+  | fireResend now p k =>
+    simp only [Sys.absOp, stepOpt, Sys.step]
+    have hf := (fire_resend env now s.a p k).2.2 sub
+    obtain ⟨hs', hc'⟩ := srel_of_sendFr hf h.srel
+    exact ⟨⟨by rw [hf.fs]; exact h.size, hs', hc'.trans h.acipher, h.log, h.netgood, h.netord, h.blink, h.beof, h.sent,
+      fun hst => h.opn (connected_of_stateFr hf.st hst), h.cln, h.pend, h.bwf, h.bwin, h.rrel, h.bcipher, h.nrel⟩, fun o ho => by cases ho⟩
   | aSendOther now data s' =>
     simp only [Sys.absOp, stepOpt, Sys.step]
     simp only [Sys.opOk, decide_eq_true_eq] at hok
@@ -1025,6 +1036,82 @@ theorem cpl_step (env : Env) (hcomp : ∀ b, env.compress b = b) (hdec : ∀ b, 
     exact ⟨⟨h.size, h.srel, h.acipher, h.log, h.netgood, h.netord, h5 h.blink, h6 h.beof, h.sent, h.opn, h.cln, h.pend, h1,
       ⟨w, by rw [h4]; exact hw, hgw, hwm⟩, h2, h3.trans h.bcipher, h.nrel⟩, fun o ho => by cases ho⟩
 
+/-! ## the sender's retransmission timers hold nothing but elements of `net` -/
+
+/-- a packet of the channel under study: reliable, of the substream, not of the handshake -/
+def relevant (sub : Nat) (p : Packet) : Bool :=
+  decide (p.substreamId = sub) && hasReliable p.flags && decide (p.type ≠ TYPE_SYN) && decide (p.type ≠ TYPE_CONNECT)
+
+/-- every packet of the channel that a retransmission timer of the sender holds was handed to the transport before -/
+def TimersOk (sub : Nat) (s : Sys) : Prop := ∀ p ∈ resendsOf s.a, relevant sub p = true → p ∈ s.net
+
+theorem timers_of_resFr {sub : Nat} {a a' : Conn} {net net' new : List Packet} (h : ∀ p ∈ resendsOf a, relevant sub p = true → p ∈ net)
+    (hf : ResFr a a' new) (hmono : ∀ q ∈ net, q ∈ net') (hnew : ∀ q ∈ new, relevant sub q = true → q ∈ net') :
+    ∀ p ∈ resendsOf a', relevant sub p = true → p ∈ net' := by
+  intro p hp hr
+  rcases hf p hp with g | g
+  · exact hmono p (h p g hr)
+  · exact hnew p g hr
+
+theorem timers_step (env : Env) (sub : Nat) (s : Sys) (op : SysOp) (h : TimersOk sub s) (hok : s.opOk env sub op = true) :
+    TimersOk sub (s.step env sub op) := by
+  unfold TimersOk at h ⊢
+  cases op with
+  | send now data =>
+    simp only [Sys.step]
+    split
+    · exact h
+    · exact timers_of_resFr h (send_resFr env now s.a data sub) (fun q hq => List.mem_append_left _ hq) (fun q hq _ => List.mem_append_right _ hq)
+  | begin now data => simp only [Sys.step]; split <;> exact h
+  | frag now =>
+    simp only [Sys.step]
+    split
+    · exact h
+    · exact timers_of_resFr h (sendPacket_resFr env now s.a _) (fun q hq => List.mem_append_left _ hq) (fun q hq _ => List.mem_append_right _ hq)
+  | ping now =>
+    exact timers_of_resFr h (sendPacket_resFr env now s.a _) (fun q hq => List.mem_append_left _ hq) (fun q hq _ => List.mem_append_right _ hq)
+  | disconnect now =>
+    simp only [Sys.step]
+    split
+    · exact h
+    · exact timers_of_resFr h (disconnect_resFr env now s.a) (fun q hq => List.mem_append_left _ hq) (fun q hq _ => List.mem_append_right _ hq)
+  | deliver j => simp only [Sys.step]; split; exact h; split <;> exact h
+  | deliverH now j => simp only [Sys.step]; split <;> exact h
+  | inject now p => exact h
+  | ackIn now p =>
+    simp only [Sys.opOk, Bool.and_eq_true, decide_eq_true_eq] at hok
+    intro q hq hr
+    exact h q (handle_ack_resSub env now s.a p hok.1.1 hok.1.2 hok.2 q hq) hr
+  | fireResend now p k =>
+    simp only [Sys.opOk, decide_eq_true_eq] at hok
+    exact timers_of_resFr h (fire_resend env now s.a p k).2.1 (fun q hq => hq)
+      (fun q hq hr => by rw [List.mem_singleton.mp hq] at hr ⊢; exact h p hok hr)
+  | aSendOther now data s' =>
+    simp only [Sys.opOk, decide_eq_true_eq] at hok
+    refine timers_of_resFr h (send_resFr env now s.a data s') (fun q hq => hq) (fun q hq hr => ?_)
+    exfalso
+    have := (send_frame env now s.a data s').2 q hq
+    unfold relevant at hr
+    simp only [Bool.and_eq_true, decide_eq_true_eq] at hr
+    exact hok (this.1.symm.trans hr.1.1.1)
+  | aRecv now p =>
+    simp only [Sys.opOk] at hok
+    intro q hq hr
+    exact h q (handle_ordinary_resSub env now s.a p (ordinary_of_B p hok) q hq) hr
+  | bSend now data s' => exact h
+  | bPing now => exact h
+  | bAckIn now p => exact h
+
+/-- **a retransmission is a re-delivery**: when a retransmission timer of the sender that holds a packet of the channel fires,
+    what is handed to the transport is that very packet (or nothing), and it is an element of `net` — a copy of something
+    emitted before, which the network may already deliver any number of times -/
+theorem resend_is_redelivery (env : Env) (sub : Nat) (s : Sys) (now : Time) (p : Packet) (k : Nat) (h : TimersOk sub s)
+    (hp : p ∈ resendsOf s.a) (hr : relevant sub p = true) :
+    ∀ q ∈ emitted (s.a.fireOne env now (.resend p k)), q = p ∧ q ∈ s.net := by
+  intro q hq
+  have := (fire_resend env now s.a p k).1 q hq
+  exact ⟨this, by rw [this]; exact h p hp hr⟩
+
 /-! ## whole runs -/
 
 /-- coupling plus the two invariants of the L2 channel -/
@@ -1032,6 +1119,7 @@ structure Good (sub : Nat) (ci : Cipher) (size start : Nat) (s : Sys) (ch : Chan
   cpl : Cpl sub ci size s ch
   snd : SndInv ci start ch.s
   rcv : RcvInv ci start ch
+  tim : TimersOk sub s
 
 theorem good_cipher {sub : Nat} {ci : Cipher} {size start : Nat} {s : Sys} {ch : Chan} (h : Good sub ci size start s ch) :
     CipherOk ci := by rw [← h.cpl.acipher]; exact cipherOf_ok _ _
@@ -1066,7 +1154,7 @@ theorem good_step (env : Env) (hcomp : ∀ b, env.compress b = b) (hdec : ∀ b,
     | some o => simp [Chan.runOk, hop o ho]
   have hinv := inv_run ci (good_cipher h) size hsz start (s.absOp env sub op).toList ch h.snd h.rcv hrun
   rw [run_toList] at hinv
-  exact ⟨⟨hc, hinv.1, hinv.2⟩, hrun⟩
+  exact ⟨⟨hc, hinv.1, hinv.2, timers_step env sub s op h.tim hok⟩, hrun⟩
 
 /-- **every run of the two-endpoint system is a run of the L2 channel** that satisfies the channel's half-window
     hypothesis, and the coupling holds at its end -/
@@ -1166,7 +1254,7 @@ theorem fresh_good (env : Env) (sub : Nat) (hsub : sub ≤ env.s.maxSubstreamId)
       rrel := ⟨rfl, hq.symm, fun _ => ⟨hf.symm, fun _ => ⟨_, replicate_get _ _ _ hn, rfl⟩⟩⟩
       bcipher := by simp only [cipherOf, Sys.fresh, a, b, Conn.new, replicate_get _ _ _ hn]
       nrel := rfl }
-  exact ⟨hcpl, hi.1, hi.2⟩
+  exact ⟨hcpl, hi.1, hi.2, fun p hp => by simp [resendsOf, Sys.fresh, a, Conn.new, Conn.login] at hp⟩
 
 end Nx.L1
 
@@ -1226,6 +1314,6 @@ theorem fresh_good_login (env : Env) (sub : Nat) (hsub : sub ≤ env.s.maxSubstr
         simp only [cipherOf, hca, hcb]
         rfl
       nrel := rfl }
-  exact ⟨hcpl, hi.1, hi.2⟩
+  exact ⟨hcpl, hi.1, hi.2, fun p hp => by simp [resendsOf, Sys.fresh, a, Conn.new, Conn.login] at hp⟩
 
 end Nx.L1
